@@ -61,7 +61,7 @@ package keys_and_cert
 //@   ensures disjoint(k.Padding, certificate.CertPayload(&k.KeyCertificate.Certificate), certificate.CertKind(&k.KeyCertificate.Certificate), certificate.CertLenBytes(&k.KeyCertificate.Certificate), k.ReceivingPublic.Bytes(), k.SigningPublic.Bytes())
 //@   ensures @C01 @C02 @C03 (err == nil) == KacAccepts(data)
 //@   ensures @C03 err == nil ==> suffix(remainder, data, KacExtent(data))
-//@   ensures @C01 @C10 err == nil ==> KacInv(k)
+//@   ensures @C01 @C10 @C18 err == nil ==> KacInv(k)
 //@   ensures @C01 err == nil ==> seqeq(certificate.CertKind(&k.KeyCertificate.Certificate), data[384:385]) && seqeq(certificate.CertLenBytes(&k.KeyCertificate.Certificate), data[385:387]) && seqeq(certificate.CertPayload(&k.KeyCertificate.Certificate), data[387:])
 //@   ensures @C02 @C10 err == nil ==> seqeq(k.ReceivingPublic.Bytes(), data[:CS(k)]) && seqeq(k.SigningPublic.Bytes(), data[384-SS(k):384]) && seqeq(k.Padding, data[CS(k):384-SS(k)])
 //@   ensures @C02 @C10 err == nil ==> key_certificate.SigType(k.KeyCertificate) == WireSigType(data) && key_certificate.CryptoType(k.KeyCertificate) == WireCryptoType(data)
